@@ -107,7 +107,7 @@ def static_calls(w, fn_prefix, include_closures=True):
     """[(body, bb, term)] for every call terminator in fn and (optionally) its closures"""
     out = []
     for k, bs in w.bodies.items():
-        if k == fn_prefix or (include_closures and k.startswith(fn_prefix + "::{closure")):
+        if k == fn_prefix or (include_closures and k in closure_keys(w, fn_prefix)):
             for bd in bs:
                 if bd.promoted is not None:
                     continue
@@ -118,6 +118,40 @@ def static_calls(w, fn_prefix, include_closures=True):
 
 def move_targets(b, local):
     """locals that receive `local`'s value through plain `_x = move/copy _local` chains"""
+    out = {local}
+    packed = set()   # (tuple local, field index) holding the value
+    changed = True
+    while changed:
+        changed = False
+        for blk in b.blocks:
+            if blk["cleanup"]:
+                continue
+            for s in blk["stmts"]:
+                if s["k"] != "assign" or s["place"]["proj"]:
+                    continue
+                if s["rv"]["k"] == "use":
+                    o = s["rv"]["a"]
+                    p = o.get("copy") or o.get("move")
+                    if p and not p["proj"] and p["local"] in out and s["place"]["local"] not in out:
+                        out.add(s["place"]["local"])
+                        changed = True
+                    # unpacking `_x = move (_t.i)` of a tuple that was packed from the value
+                    if p and len(p["proj"]) == 1 and isinstance(p["proj"][0], dict) and "field" in p["proj"][0] \
+                            and (p["local"], str(p["proj"][0]["field"])) in packed and s["place"]["local"] not in out:
+                        out.add(s["place"]["local"])
+                        changed = True
+                elif s["rv"]["k"] == "tuple":
+                    for i, f in enumerate(s["rv"]["fields"]):
+                        q = f.get("copy") or f.get("move")
+                        if q and not q["proj"] and q["local"] in out:
+                            for tl in move_targets_plain(b, s["place"]["local"]):
+                                if (tl, str(i)) not in packed:
+                                    packed.add((tl, str(i)))
+                                    changed = True
+    return out
+
+
+def move_targets_plain(b, local):
     out = {local}
     changed = True
     while changed:
@@ -194,7 +228,7 @@ def body_fields(cb):
     return out
 
 
-def backward_slice(b, local, depth=14, w=None):
+def backward_slice(b, local, depth=40, w=None):
     """static backward slice through single-definition temporaries: returns (callee names, field names, param ids)
     that the value of `local` is computed from (used only to classify the role of a value)"""
     defs = {}
@@ -260,7 +294,7 @@ def backward_slice(b, local, depth=14, w=None):
                         if m:
                             # non-capturing closure passed by value: find it among this function's closures
                             for k, bs in w.bodies.items():
-                                if k.startswith(b.fn + "::{closure") and "#promoted" not in k:
+                                if k in closure_keys(w, b.fn):
                                     sp = bs[0].span.split(":")
                                     if sp[0].split("/")[-1] in z and (":" + sp[-1] + ":") in z:
                                         fields.update(body_fields(bs[0]))
@@ -395,7 +429,7 @@ def loop_carried(b, cf, h, local):
     return False
 
 
-def backward_locals(b, local, depth=14):
+def backward_locals(b, local, depth=40):
     """the locals the value of `local` is computed from (through assignments, references and call arguments)"""
     defs = {}
     for blk in b.blocks:
@@ -437,3 +471,11 @@ def blocks_defining_operand(b, bb, argi):
         if tt["k"] == "call" and tt["dest"]["local"] in ls:
             out.add(i)
     return out
+
+
+def closure_keys(w, fn):
+    """keys of the closure bodies that belong to `fn`: its own closures and those of helper functions that were inlined into
+    callers (inline.py) in the same crate - after a helper extraction the closure is named after the helper"""
+    crate = fn.split("::")[0]
+    owners = [fn] + [h for h, done in getattr(w, "inlined", {}).items() if done and h.split("::")[0] == crate]
+    return [k for k in w.bodies if "#promoted" not in k and any(k.startswith(o + "::{closure") for o in owners)]
